@@ -9,6 +9,7 @@ import MutagenModel.Spec.Info.Tak
 import MutagenModel.Spec.Info.Musepack
 import MutagenModel.Spec.Info.Aac
 import MutagenModel.Spec.Info.Ac3
+import MutagenModel.Spec.Info.Hyp
 import Driver.Util
 namespace Driver
 open Mutagen Mutagen.Info
@@ -36,7 +37,8 @@ def wavpackFields (a : Args) : Spec.WavPack.Fields :=
     bytesPerSample := a.nat "bps", mono := a.nat "mono" == 1, modeLow := a.nat "modelow"
     shiftMag := a.nat "shiftmag", rateIndex := a.nat "ri", modeHigh := a.nat "modehigh"
     first := blocks.headD { samples := 0, payload := [], crc := 0 }
-    more := blocks.tail }
+    more := blocks.tail
+    firstIndex := a.nat "fi" }
 
 /-! Monkey's Audio -/
 
@@ -155,36 +157,64 @@ def adifFields (a : Args) : Spec.Aac.Adif :=
     originalCopy := a.nat "oc", home := a.nat "home", bitstreamType := a.nat "bt", bitrate := a.nat "bitrate",
     firstFullness := (pces.headD dflt).1, first := (pces.headD dflt).2, more := pces.tail, payload := a.bytes "payload" }
 
+def renderWavPack (i : WavPack.Info) : String :=
+  s!"version={i.version} channels={i.channels} sample_rate={i.sampleRate} bits_per_sample={i.bitsPerSample} length={showRatioA i.length}"
+
+def renderApe (i : MonkeysAudio.Info) : String :=
+  s!"version={i.version}/1000 channels={i.channels} sample_rate={i.sampleRate} bits_per_sample={i.bitsPerSample} length={showRatioA i.length}"
+
+def renderOfr (i : OptimFROG.Info) : String :=
+  s!"channels={i.channels} sample_rate={i.sampleRate} bits_per_sample={optNatA i.bitsPerSample} length={showRatioA i.length} encoder_info={hexStrA i.encoderInfo}"
+
+def renderTta (i : TrueAudio.Info) : String := s!"sample_rate={i.sampleRate} length={showRatioA i.length}"
+
+def renderTak (i : Tak.Info) : String :=
+  let enc := match i.encoder with
+    | none => "-"
+    | some (ma, mi, pa) => hexStrA s!"TAK {ma}.{mi}.{pa}".toList
+  s!"channels={i.channels} sample_rate={i.sampleRate} bits_per_sample={i.bitsPerSample} length={showRatioA i.length} encoder_info={enc}"
+
+def renderMpc (i : Musepack.Info) : String :=
+  s!"version={i.version} channels={i.channels} sample_rate={i.sampleRate} length={showRatioA i.length} bitrate={showBitrate i.bitrate} title_gain={showRG i.titleGain} title_peak={showRG i.titlePeak} album_gain={showRG i.albumGain} album_peak={showRG i.albumPeak}"
+
+def renderAac (i : Aac.Info) : String :=
+  s!"channels={i.channels} sample_rate={i.sampleRate} bitrate={showRatioA i.bitrate} length={showRatioA i.length} type={if i.adif then "ADIF" else "ADTS"}"
+
+def renderAc3 (i : Ac3.Info) : String :=
+  let len := match i.length with | none => "None" | some r => showRatioA r
+  s!"channels={i.channels} sample_rate={i.sampleRate} bitrate={i.bitrate} length={len} codec={if i.eac3 then "ec-3" else "ac-3"}"
+
 def infoAParse (kind : String) (data : Bytes) (a : Args) : String :=
   match kind with
-  | "WavPack" =>
-    showResA (WavPack.parse data) fun i =>
-      s!"version={i.version} channels={i.channels} sample_rate={i.sampleRate} bits_per_sample={i.bitsPerSample} length={showRatioA i.length}"
-  | "MonkeysAudio" =>
-    showResA (MonkeysAudio.parse data) fun i =>
-      s!"version={i.version}/1000 channels={i.channels} sample_rate={i.sampleRate} bits_per_sample={i.bitsPerSample} length={showRatioA i.length}"
-  | "OptimFROG" =>
-    showResA (OptimFROG.parse data) fun i =>
-      s!"channels={i.channels} sample_rate={i.sampleRate} bits_per_sample={optNatA i.bitsPerSample} length={showRatioA i.length} encoder_info={hexStrA i.encoderInfo}"
-  | "TrueAudio" =>
-    showResA (TrueAudio.parse data (a.nat "offset")) fun i =>
-      s!"sample_rate={i.sampleRate} length={showRatioA i.length}"
-  | "TAK" =>
-    showResA (Tak.parse data) fun i =>
-      let enc := match i.encoder with
-        | none => "-"
-        | some (ma, mi, pa) => hexStrA s!"TAK {ma}.{mi}.{pa}".toList
-      s!"channels={i.channels} sample_rate={i.sampleRate} bits_per_sample={i.bitsPerSample} length={showRatioA i.length} encoder_info={enc}"
-  | "Musepack" =>
-    showResA (Musepack.parse data) fun i =>
-      s!"version={i.version} channels={i.channels} sample_rate={i.sampleRate} length={showRatioA i.length} bitrate={showBitrate i.bitrate} title_gain={showRG i.titleGain} title_peak={showRG i.titlePeak} album_gain={showRG i.albumGain} album_peak={showRG i.albumPeak}"
-  | "AAC" =>
-    showResA (Aac.parse data) fun i =>
-      s!"channels={i.channels} sample_rate={i.sampleRate} bitrate={showRatioA i.bitrate} length={showRatioA i.length} type={if i.adif then "ADIF" else "ADTS"}"
-  | "AC3" =>
-    showResA (Ac3.parse data) fun i =>
-      let len := match i.length with | none => "None" | some r => showRatioA r
-      s!"channels={i.channels} sample_rate={i.sampleRate} bitrate={i.bitrate} length={len} codec={if i.eac3 then "ec-3" else "ac-3"}"
+  | "WavPack" => showResA (WavPack.parse data) renderWavPack
+  | "MonkeysAudio" => showResA (MonkeysAudio.parse data) renderApe
+  | "OptimFROG" => showResA (OptimFROG.parse data) renderOfr
+  | "TrueAudio" => showResA (TrueAudio.parse data (a.nat "offset")) renderTta
+  | "TAK" => showResA (Tak.parse data) renderTak
+  | "Musepack" => showResA (Musepack.parse data) renderMpc
+  | "AAC" => showResA (Aac.parse data) renderAac
+  | "AC3" => showResA (Ac3.parse data) renderAc3
+  | _ => "bad-op"
+
+/-- `op=expect`: the right-hand side of the kind's C05 decode theorem for these fields, and whether ALL hypotheses of the
+theorem hold for the fields and the bytes `suffix` behind the built header (`Spec.Hyp`, Props/C05_Instances.lean) -/
+def infoAExpect (kind : String) (a : Args) : String :=
+  let rest := a.bytes "suffix"
+  let ans (hyp : Bool) (attrs : String) : String := s!"ok hyp={if hyp then 1 else 0} {attrs}"
+  open Mutagen.Spec.Hyp in
+  match kind with
+  | "WavPack" => let h := wavpackFields a; ans (decide (WavPackHyp h rest)) (renderWavPack (Spec.WavPack.expected h))
+  | "APE" => let h := apeNewFields a; ans (decide (ApeHyp h)) (renderApe h.expected)
+  | "APE_OLD" => let h := apeOldFields a; ans (decide (ApeOldHyp h)) (renderApe h.expected)
+  | "OptimFROG" => let h := ofrFields a; ans (decide (OfrHyp h rest)) (renderOfr (Spec.OptimFROG.expected h))
+  | "TTA" => let h := ttaFields a; ans (decide (TtaHyp h)) (renderTta (Spec.TrueAudio.expected h))
+  | "TAK" => let h := takFields a; ans (decide (TakHyp h)) (renderTak (Spec.Tak.expected h))
+  | "MPC_SV7" => let h := mpc7Fields a; ans (decide (Mpc7Hyp h rest)) (renderMpc (mpc7Expect h rest))
+  | "MPC_SV8" => let h := mpc8Fields a; ans (decide (Mpc8Hyp h rest)) (renderMpc (mpc8Expect h rest))
+  | "AAC_ADTS" => let h := adtsFields a; ans (decide (AdtsHyp h rest)) (renderAac (adtsExpect h))
+  | "ADIF" => let h := adifFields a; ans (decide (AdifHyp h rest)) (renderAac h.expected)
+  | "AC3" => let h := ac3Fields a; ans (decide (Ac3Hyp h rest)) (renderAc3 h.expected)
+  | "EAC3" => let h := eac3Fields a; ans (decide (Eac3Hyp h rest)) (renderAc3 h.expected)
   | _ => "bad-op"
 
 def infoABuild (kind : String) (a : Args) : String :=
@@ -235,6 +265,7 @@ def infoAOp (a : Args) : String :=
   match a.str "op" "parse" with
   | "parse" => infoAParse (a.str "kind") (a.bytes "data") a
   | "build" => infoABuild (a.str "kind") a
+  | "expect" => infoAExpect (a.str "kind") a
   | _ => "bad-op"
 
 end Driver
